@@ -664,8 +664,9 @@ def main(argv):
                 else:
                     inconclusive.append((r, "counterexample did not reproduce natively: %s" % "; ".join(detail)[:600]))
             elif r["status"] == "INCONCLUSIVE":
-                if h.get("besteffort", "").startswith("y") and ("timeout" in r["reason"] or "memory" in r["reason"]
-                                                               or "verdict FAILED without failed check" in r["reason"]):
+                if h.get("besteffort", "").startswith("y") and any(k in r["reason"] for k in (
+                        "timeout", "memory", "verdict FAILED without failed check", "undetermined checks", "no verdict",
+                        "solver error")):
                     # a best-effort deep harness that did not finish within its cap: reported as undecided in the
                     # evidence; it is not a pass and not counted, but it does not make the whole check inconclusive
                     undecided.append((r, r["reason"]))
